@@ -2,6 +2,7 @@ import StrumModel.Protocol
 import StrumModel.Overlap
 import StrumModel.Display
 import StrumModel.Iter
+import StrumModel.Repr
 /-
 Dispatch of `op` lines to the model. One answer line per op.
 -/
@@ -212,6 +213,42 @@ def runOp (d : EnumDef) (args : List String) : String :=
     match variantArray d with
     | none => "CE:nonUnit"
     | some l => String.intercalate " " (("n=" ++ toString l.length) :: l.map encodeStr)
+  | ["repr", x] =>
+    match x.toInt? with
+    | none => "bad-op"
+    | some x =>
+      match fromRepr d x with
+      | none => "none"
+      | some (k, p) => "some " ++ String.intercalate ":" (encodeStr k :: p.map showFieldInit)
+  | ["reprall"] =>
+    let t := reprType d
+    let n := (t.max - t.min + 1).toNat
+    let hits := (List.range n).filterMap (fun (i : Nat) =>
+      let x : Int := t.min + (i : Int)
+      match fromRepr d x with
+      | none => none
+      | some (k, p) => some (toString x ++ "=" ++ String.intercalate ":" (encodeStr k :: p.map showFieldInit)))
+    String.intercalate " " (("tried=" ++ toString n) :: hits)
+  | ["discrs"] =>
+    let l := rustcDiscr d
+    String.intercalate " " (("n=" ++ toString l.length) :: l.map toString)
+  | ["constfn"] => if isConstFn d then "const=1" else "const=0"
+  | ["disc", k, _alt, evalflag] =>
+    match findVariant d k with
+    | none => "bad-op"
+    | some v =>
+      let vis := if d.discVis = 0 then DiscVis.inherit else if d.discVis = 1 then DiscVis.pub else DiscVis.restricted
+      let e := genDiscriminants d d.discName vis
+      let target := (discOf d v.ident).getD []
+      let idx := (e.variants.map (·.1)).idxOf target
+      let val := (rustcDiscr e.asEnum)[idx]?
+      "name=" ++ encodeStr e.name ++ " from=" ++ encodeStr target ++ " from_ref=" ++ encodeStr target ++
+        " into=" ++ (if e.hasIntoDiscriminant then encodeStr target else "-") ++
+        " val=" ++ (match val with | some x => toString x | none => "?") ++
+        " eval=" ++ (if evalflag = "0" then "?" else
+          match (rustcDiscr d)[(d.variants.map (·.ident)).idxOf v.ident]? with
+          | some x => toString x
+          | none => "?") ++ " pt=ok size_ok=true"
   | ["nooverlap"] => if noOverlapB d then "1" else "0"
   | ["spellings", k] =>
     match decodeStr k with
